@@ -1032,7 +1032,7 @@ Proof.
   destruct (length s =? 0) eqn:E0.
   { apply Nat.eqb_eq in E0. apply length_zero_iff_nil in E0. subst s. exists (dyn [] rest). split; [reflexivity|]. right. now exists rest. }
   fold (dyn s rest). rewrite dyn_raw.
-  destruct (grow_raw s (0%N :: rest) (length s * 2)) as (T' & -> & HT'). cbn [fst raw blen cells].
+  destruct (grow_raw s (0%N :: rest) (length s * 2)) as (T' & -> & HT'). cbn [negb fst raw blen cells].
   rewrite (firstn_app_l (length s) s) by reflexivity.
   set (h := bin_to_hex up s). assert (Hh : length h = length s * 2) by apply bin_to_hex_length.
   destruct (skipn (length h) (s ++ T')) as [|x W] eqn:EW.
